@@ -92,6 +92,8 @@ func c03Specs() []built {
 		// a scheme pattern that also matches the empty string must not admit scheme-less (relative) references
 		spec.Spec{Name: "url-scheme-pattern-matches-empty", Base: "new", Calls: w(opt("RequireParseableURLs", true), C{Op: "AllowURLSchemes", Names: []string{"https"}}, C{Op: "AllowURLSchemesMatching", Re: `^(ftp|tel)?$`})},
 		spec.Spec{Name: "url-only-scheme-pattern-star", Base: "new", Calls: w(opt("RequireParseableURLs", true), C{Op: "AllowURLSchemesMatching", Re: `^[a-z]*$`}, opt("AllowRelativeURLs", false))},
+		// a custom check that refuses one host: it has to see the host a browser will go to
+		spec.Spec{Name: "url-custom-deny-host", Base: "new", Calls: w(opt("AllowRelativeURLs", false), C{Op: "AllowURLSchemeWithCustomPolicy", Names: []string{"http", "https"}, Fn: "host-not-e.x"})},
 		spec.Spec{Name: "url-only-custom-scheme", Base: "new", Calls: w(opt("AllowRelativeURLs", true), C{Op: "AllowURLSchemeWithCustomPolicy", Names: []string{"http"}, Fn: "host-example.org"})})
 	// the shipped policy too (implies URL checking through AllowStandardURLs)
 	out = append(out, specByName("ugc"), specByName("cmd-email"))
@@ -133,7 +135,7 @@ func judgeURLValue(v *spec.View, el, key, val string) (sig, what string) {
 	if len(checks) == 0 {
 		return "", ""
 	}
-	u, err := url.Parse(val)
+	u, err := url.Parse(browserForm(sch, val))
 	if err != nil {
 		return "unparseable", fmt.Sprintf("surviving %s.%s=%s does not parse", el, key, run.Q(val))
 	}
@@ -143,6 +145,25 @@ func judgeURLValue(v *spec.View, el, key, val string) (sig, what string) {
 		}
 	}
 	return "custom-check|" + el + "." + key, fmt.Sprintf("%s.%s=%s survives although the custom check for scheme %q rejects it", el, key, run.Q(val), sch)
+}
+
+// browserForm: for the special schemes a browser takes any run of slashes and backslashes after the colon (none
+// included) as the start of the authority: "https:e.x/p", "https:/e.x/p" and "https:\\e.x/p" all name the host e.x.
+// The custom check is an approval of the URL the browser will use, so the oracle puts the value into that form first.
+func browserForm(sch, val string) string {
+	switch sch {
+	case "http", "https", "ftp", "ws", "wss":
+	default:
+		return val
+	}
+	i := strings.IndexByte(val, ':')
+	if i < 0 {
+		return val
+	}
+	rest := strings.ReplaceAll(val[i+1:], `\`, "/")
+	// (the authority ends at the first / ? #; backslashes after it are path characters that a browser also turns
+	// into slashes)
+	return sch + "://" + strings.TrimLeft(rest, "/")
 }
 
 func judgeC03(v *spec.View, out string) (sig, what string) {
@@ -216,7 +237,8 @@ func runC03(c *run.Ctx) {
 	for i := range bs {
 		n := bs[i].S.Name
 		if strings.HasSuffix(n, "rw0") || n == "url-rel1-v0-rw1" || n == "url-rel0-v1-rw1" ||
-			strings.HasPrefix(n, "url-no-schemes") || strings.HasPrefix(n, "url-only-") || strings.HasPrefix(n, "url-unanchored-") {
+			strings.HasPrefix(n, "url-no-schemes") || strings.HasPrefix(n, "url-only-") || strings.HasPrefix(n, "url-unanchored-") ||
+			strings.HasPrefix(n, "url-custom-") || strings.HasPrefix(n, "url-scheme-pattern-") {
 			deepMain = append(deepMain, bs[i])
 		}
 		if n == "url-rel0-v0-rw0" || n == "url-rel1-v1-rw1" || n == "url-rel1-v2-rw0" || n == "url-http-only-rw1" || n == "url-global-attrs-rw0" {
